@@ -309,6 +309,11 @@ pub fn worker(ctx: &WorkerCtx, arch: Arch, mode: Mode) -> Report {
                     if !ctx.mine(idx) {
                         continue;
                     }
+                    // (quick tier: the heap and calling-convention modes take every second program of
+                    // each worker's share; the semantics mode and the thorough tier take all)
+                    if !ctx.tier.thorough() && mode != Mode::Semantics && (idx / ctx.nshards.max(1) as u64) % 2 == 1 {
+                        continue;
+                    }
                     if let Some(prog) = core_to_linear(s, core_print) {
                         for input in [0i64, 3] {
                             handle(AxCase { name: format!("core/{aname}/n{size}/{i}"), prog: prog.clone(), args: vec![input], uses_print: core_print });
